@@ -10,8 +10,9 @@
    part of the state and is set from outside before a command runs (ShardMessage carries the
    virtual time; after repair C04-fast-path-stale-clock EVERY entry path - Command, Fast*, Pooled*,
    FastBatch* - evaluates expiry at the current time).  A key whose deadline has passed is absent for
-   every reader and writer; readers leave it in place (the code drops it lazily, which only DEL of
-   such a key could observe - the harnesses never send that).
+   every reader and writer.  (The code drops expired keys eagerly: set_time, which precedes every
+   command on every path, evicts them; the model leaves them in place and ignores them - the same
+   for every command, DEL and DBSIZE included, which count live keys only.)
    Keys are compared as raw bytes: the lossy UTF-8 conversion of keys by the generic path is NOT
    modelled (the harnesses use at most one key that is not valid UTF-8, and none equal to its lossy
    image, so key identity is preserved).  Command names are ASCII (to_uppercase on ASCII only).
@@ -77,6 +78,10 @@ Inductive mcmd :=
 | CSet (k v : bytes)
 | CSetPx (k v : bytes) (px : N)      (* SET k v PX px, px > 0 *)
 | CDel (ks : list bytes)
+| CFlush                              (* FLUSHALL / FLUSHDB *)
+| CDbSize
+| CMSet (ps : list (bytes * bytes))
+| CMGet (ks : list bytes)
 | CIncr (k : bytes)
 | CAppend (k v : bytes)
 | CLPush (k : bytes) (vs : list bytes)
@@ -168,6 +173,14 @@ Definition mdecode (v : resp) : mcmd + bytes :=
              end
            | _ => E "unmodelled"
            end
+    else if is n "FLUSHALL" || is n "FLUSHDB" then inl CFlush
+    else if is n "DBSIZE" then inl CDbSize
+    else if is n "MGET" then
+      if (argc <? 1)%nat then E "MGET requires at least 1 argument"
+      else match bulks args with Some ks => inl (CMGet ks) | None => EXPECTED_BULK end
+    else if is n "MSET" then
+      if (argc <? 2)%nat || negb (Nat.even argc) then E "ERR wrong number of arguments for 'mset' command"
+      else match bulks args with Some kv => inl (CMSet (pairs_of kv)) | None => EXPECTED_BULK end
     else if is n "DEL" then
       if (argc <? 1)%nat then E "DEL requires at least 1 argument"
       else match bulks args with Some ks => inl (CDel ks) | None => EXPECTED_BULK end
@@ -235,12 +248,13 @@ Definition lrange (l : list bytes) (start stop : Z) : list bytes :=
   if ((stop <? start) || (len <=? start))%Z then []
   else firstn (Z.to_nat (stop - start + 1)) (skipn (Z.to_nat start) l).
 
-(* execute_del: `data.remove(key).is_some()` counts, `expirations.remove(key)` *)
+(* execute_del: `data.remove(key).is_some()` counts (expired keys are gone by then: set_time evicts),
+   `expirations.remove(key)` *)
 Fixpoint del_keys (s : store) (ks : list bytes) : store * nat :=
   match ks with
   | [] => (s, 0)
   | k :: t =>
-    let hit := match lookup k (data s) with Some _ => 1 | None => 0 end in
+    let hit := match vget s k with Some _ => 1 | None => 0 end in
     let '(s', n) := del_keys (mkM (now s) (remove k (data s)) (remove k (exps s))) t in (s', hit + n)
   end.
 Fixpoint hset_all (h : list (bytes * bytes)) (ps : list (bytes * bytes)) : list (bytes * bytes) * nat :=
@@ -291,6 +305,10 @@ Definition mexec (s : store) (c : mcmd) : store * resp :=
   | CSet k x => (put_fresh s k (VStr x), RSimple (str "OK"))
   | CSetPx k x px => (put_px s k (VStr x) px, RSimple (str "OK"))
   | CDel ks => let '(s', n) := del_keys s ks in (s', nat_int n)
+  | CFlush => (mkM (now s) [] [], RSimple (str "OK"))
+  | CDbSize => (s, nat_int (List.length (filter (fun p => negb (expired s (fst p))) (data s))))
+  | CMSet ps => (fold_left (fun s p => put_fresh s (fst p) (VStr (snd p))) ps s, RSimple (str "OK"))
+  | CMGet ks => (s, RArr (map (fun k => match vget s k with Some (VStr x) => RBulk x | _ => RNilBulk end) ks))
   | CIncr k =>
     let s := purge s k in
     match lookup k (data s) with
@@ -485,3 +503,37 @@ Definition holds_nonstring (s : store) (k : bytes) : bool :=
   | Some _ => true
   end.
 Definition nonstring_at_both (sW sE : store) (k : bytes) : bool := holds_nonstring sW k && holds_nonstring sE k.
+
+(* ------------------------------------------------------------------ the executor-level transaction machine *)
+(* what WATCH stores: the value under the key (any type), absent once expired *)
+Fixpoint bytes_list_eqb (a b : list bytes) : bool :=
+  match a, b with
+  | [], [] => true
+  | x :: a', y :: b' => bytes_eqb x y && bytes_list_eqb a' b'
+  | _, _ => false
+  end.
+(* association lists without repeated keys, compared as maps *)
+Definition assoc_eqb {B} (f : B -> B -> bool) (a b : list (bytes * B)) : bool :=
+  (List.length a =? List.length b)%nat
+  && forallb (fun p => match lookup (fst p) b with Some y => f (snd p) y | None => false end) a.
+(* lists without repetitions, compared as sets *)
+Definition set_eqb (a b : list bytes) : bool :=
+  (List.length a =? List.length b)%nat && forallb (fun x => mem x b) a.
+(* Value's PartialEq: lists by position, hashes / sets / sorted sets by content *)
+Definition mval_eqb (a b : mval) : bool :=
+  match a, b with
+  | VStr x, VStr y => bytes_eqb x y
+  | VList x, VList y => bytes_list_eqb x y
+  | VHash x, VHash y => assoc_eqb bytes_eqb x y
+  | VSet x, VSet y => set_eqb x y
+  | VZSet x, VZSet y => assoc_eqb Z.eqb x y
+  | _, _ => false
+  end.
+Definition omval_eqb (a b : option mval) : bool :=
+  match a, b with
+  | None, None => true
+  | Some x, Some y => mval_eqb x y
+  | _, _ => false
+  end.
+Notation mxstate := (xstate mstate mcmd (option mval)) (only parsing).
+Definition mx_step := x_step mstate mcmd (option mval) mexec mkind vget omval_eqb.
